@@ -19,12 +19,13 @@ func init() {
 }
 
 func runC12(c *core.Ctx) {
-	k := newG(c, "./lang/render", "./lib/dumbindent")
+	k := newG(c, "./lang/render", "./lib/dumbindent", "./lang/token")
 	runC12Render(k)
 	runC12Comments(k)
 	runC12Indent(k)
 	runC12Cursor(k)
 	runC12More(k)
+	runC12Num(k)
 }
 
 // appendTo: n is `dst = append(dst, X[...])` or `dst = f(dst, …)`; returns the call.
